@@ -620,8 +620,11 @@ Proof.
     + intros k ow [A B]. split; [|exact B]. destruct (is_signer ms' ow) eqn:S; [|reflexivity].
       apply (cpi_metas_signer _ _ _ _ _ E0) in S. cbn [cx_metas] in S. congruence.
     + intros k A. exact A.
-  - rg_inv E. rg_inv E. eapply keep_trans; [|eapply withdraw_sol_cpi_keep; exact E].
-    eapply tok_transfer_checked_keep; [eassumption|]. intros A [B _]. apply cpi_auth_nil in A. cbn [cx_metas] in A. congruence.
+  - rg_inv E. match type of E with (if ?b then _ else _) = Ok _ => destruct b end.
+    + rg_inv E. eapply keep_trans; [|eapply withdraw_sol_cpi_keep; exact E].
+      eapply tok_transfer_checked_keep; [eassumption|]. intros A [B _]. apply cpi_auth_nil in A. cbn [cx_metas] in A. congruence.
+    + revert E. destruct (nthk ms 8); intros E; try discriminate E. rg_inv E.
+      eapply withdraw_sol_cpi_keep; exact E.
 Qed.
 
 (* the revenue-distribution instruction at the bottom of the wrappers ran on the very same world, as program KRd, and with
